@@ -40,6 +40,7 @@ structure FcConn where
   initWin : Int              -- h2c->s_initial_window_size
   streams : List FcStream := []
   goaway : Option Nat := none   -- error code of a connection error raised by the window logic
+  maxId : Nat := 0              -- h2c->h2_cid: highest stream id opened by the client
   -- ghost
   credit : Int               -- connection-level credit granted by the client
   sent : Nat := 0
@@ -61,24 +62,36 @@ def errFlowControl : Nat := 3
 
 /-- h2_init_stream(): a new response stream with `body` bytes to send -/
 def openStream (c : FcConn) (id body : Nat) (incremental : Bool) : FcConn :=
-  { c with streams := c.streams ++ [{ id := id, swin := c.initWin, pending := body,
+  { c with maxId := max c.maxId id,
+           streams := c.streams ++ [{ id := id, swin := c.initWin, pending := body,
                                        incremental := incremental, credit := c.clientInit }] }
 
 /-- would `swin + diff` leave int32? (the guard in h2_parse_frame_settings) -/
 def winOverflows (swin diff : Int) : Bool :=
   if diff ≥ 0 then swin > int32Max - diff else swin < int32Min - diff
 
-/-- h2_parse_frame_settings(), case SETTINGS_INITIAL_WINDOW_SIZE -/
+/-- a stream whose window SETTINGS_INITIAL_WINDOW_SIZE changes apply to -/
+def FcStream.live (s : FcStream) : Bool := !(s.st = .halfClosedLocal || s.st = .closed)
+
+/-- h2_parse_frame_settings(), case SETTINGS_INITIAL_WINDOW_SIZE.  A value above 2^31-1, or
+    a change that would push the window of any live stream out of range, is a connection
+    error FLOW_CONTROL_ERROR (RFC 9113 §6.9.2); otherwise the delta is applied to every live
+    stream, which may make windows negative. -/
 def applyInitialWindow (c : FcConn) (v : Nat) : FcConn × List FcOut :=
-  if (v : Int) > int32Max then ({ c with goaway := some errFlowControl }, [.goaway errFlowControl]) else
-  let diff : Int := (v : Int) - c.initWin
-  let upd (s : FcStream) : FcStream × List FcOut :=
-    if s.st = .halfClosedLocal ∨ s.st = .closed then (s, [])
-    else if winOverflows s.swin diff then
-      ({ s with st := .closed }, [.rst s.id errFlowControl])
-    else ({ s with swin := s.swin + diff, credit := s.credit + ((v : Int) - c.clientInit) }, [])
-  let rs := c.streams.map upd
-  ({ c with initWin := v, clientInit := v, streams := rs.map (·.1) }, rs.flatMap (·.2))
+  if (v : Int) > int32Max then ({ c with goaway := some errFlowControl }, [.goaway errFlowControl])
+  else if c.streams.any (fun s => s.live && winOverflows s.swin ((v : Int) - c.initWin)) then
+    ({ c with goaway := some errFlowControl }, [.goaway errFlowControl])
+  else
+    ({ c with initWin := v, clientInit := v,
+              streams := c.streams.map fun s =>
+                if s.live then { s with swin := s.swin + ((v : Int) - c.initWin),
+                                        credit := s.credit + ((v : Int) - c.clientInit) }
+                else s }, [])
+
+/-- update the stream the id lookup finds (the first one with that id) -/
+def updFirst (sid : Nat) (f : FcStream → FcStream) : List FcStream → List FcStream
+  | [] => []
+  | x :: xs => if x.id = sid then f x :: xs else x :: updFirst sid f xs
 
 /-- h2_recv_window_update() for a frame of valid length -/
 def windowUpdate (c : FcConn) (sid inc : Nat) : FcConn × List FcOut :=
@@ -88,15 +101,18 @@ def windowUpdate (c : FcConn) (sid inc : Nat) : FcConn × List FcOut :=
     else ({ c with swin := c.swin + inc, credit := c.credit + inc }, [])
   else
     match c.streams.find? (·.id = sid) with
-    | none => (c, [])        -- unknown / retired stream: ignored here (see Model/H2.lean)
+    | none =>
+      -- idle stream (id above every id seen): connection error; retired stream: ignored
+      if sid > c.maxId then ({ c with goaway := some errProtocol }, [.goaway errProtocol]) else (c, [])
     | some s =>
       if s.st = .closed ∨ s.st = .halfClosedLocal then (c, [])
+      else if inc = 0 then
+        ({ c with streams := updFirst sid (fun x => { x with st := .closed }) c.streams }, [.rst sid errProtocol])
+      else if s.swin > int32Max - inc then
+        ({ c with streams := updFirst sid (fun x => { x with st := .closed }) c.streams }, [.rst sid errFlowControl])
       else
-        let upd (f : FcStream → FcStream) : FcConn :=
-          { c with streams := c.streams.map fun x => if x.id = sid then f x else x }
-        if inc = 0 then (upd fun x => { x with st := .closed }, [.rst sid errProtocol])
-        else if s.swin > int32Max - inc then (upd fun x => { x with st := .closed }, [.rst sid errFlowControl])
-        else (upd fun x => { x with swin := x.swin + inc, credit := x.credit + inc }, [])
+        ({ c with streams := updFirst sid (fun x => { x with swin := x.swin + inc, credit := x.credit + inc })
+                               c.streams }, [])
 
 /-- amount h2_send_cqdata() sends for a request of `dlen` bytes: clamp to the stream window,
     the connection window and the queued data; defer when the window-limited amount is
